@@ -223,7 +223,7 @@ def _main(prop, tier, seed, meta, tmp, a, t0):
         else:
             fresh.append(v)
     # ---- vacuity guards
-    if meta.get("p_keys") and not P.get("error") and n_ob == 0:
+    if meta.get("p_keys") and not P.get("error") and n_ob == 0 and not unsupported:
         problems.append("engine P generated zero obligations")
     if meta.get("b_module", True) and not B.get("error") and not B.get("skipped") \
             and B.get("evaluations", 0) == 0:
